@@ -33,8 +33,8 @@ def gen_case(ch, tier='quick'):
         recipe = trees.gen_recipe(ch, kinds=('xml-api', 'lxml-xml'), names=('a', 'b'), max_elems=10,
                                   ns_choices=(None, 'urn:a', 'urn:b'), prefix_choices=(None, 'x', 'y'))
     else:
-        recipe = trees.gen_recipe(ch, max_elems=12 if tier == 'quick' else 28,
-                                  attr_names=('title', 'data-x', 'href', 'type'))
+        recipe = trees.gen_recipe(ch, max_elems=12 if tier == 'quick' else 28, names=('a', 'b', 'p', 'div', 'span', 'zz'),
+                                  attr_names=('title', 'data-x', 'href', 'type', 'size'))
     doc = trees.materialise(recipe)
     if not doc.all_elements():
         recipe = {'kind': 'html-api', 'top': [trees.E('a')], 'detach': None}
